@@ -1,4 +1,5 @@
 import Driver.Dec
+import Driver.Rid
 /-! `mio-driver`: reads one case per line (`<model> <args…>`), prints what the model computes.
 Imports model files only (no Mathlib, no lemma files), so it links as a native executable. -/
 open Mio Mio.Driver
@@ -8,6 +9,7 @@ def dispatch (line : String) : String :=
   | "dec" :: ws => runDec ws
   | "var" :: ws => runVar ws
   | "addr" :: ws => runAddr ws
+  | "rid" :: ws => runRid ws
   | _ => "bad-case"
 
 partial def loop (h : IO.FS.Stream) (out : IO.FS.Stream) : IO Unit := do
